@@ -170,8 +170,19 @@ P_C20L(pre, e) ==
              \A i \in DOMAIN e.a.subscribed : Cardinality({j \in DOMAIN e.a.closed_calls : e.a.closed_calls[j] = <<e.a.subscribed[i], e.a.mid>>}) = 1,
              <<e.a.closed_calls, e.a.subscribed>>)
        /\ Ck("C20", "ClosedFlag", Has(e.st.mkt, e.a.mid) => e.st.mkt[e.a.mid].closed, e.a.mid)
-       \* a live framework only removes markets closed for more than an hour
-       /\ Ck("C20", "LiveRemovesOnlyAfterHour", Has(e.st.mkt, e.a.mid), e.a.mid)
+       \* a live framework only removes markets closed for more than an hour: the market closing now stays,
+       \* any other market disappears only if the driver's own ledger says its LATEST closure is more than
+       \* 3600 s old (a re-opened and re-closed market counts from the second closure) ...
+       /\ Ck("C20", "LiveRemovesOnlyAfterHour",
+             /\ Has(e.st.mkt, e.a.mid)
+             /\ \A m \in DOMAIN pre.mkt \ DOMAIN e.st.mkt :
+                   m \in DOMAIN e.a.closed_since /\ e.a.now - e.a.closed_since[m] > 3600,
+             <<e.a.mid, DOMAIN pre.mkt \ DOMAIN e.st.mkt, e.a.now, e.a.closed_since>>)
+       \* ... and such a market is released when the next closure is processed
+       /\ Ck("C20", "LiveReleasesAfterHour",
+             \A m \in DOMAIN e.a.closed_since :
+                (Has(pre.mkt, m) /\ pre.mkt[m].closed /\ e.a.now - e.a.closed_since[m] > 3700) => ~Has(e.st.mkt, m),
+             <<e.a.now, e.a.closed_since, DOMAIN e.st.mkt>>)
 
 StepOK(pre, e) ==
     /\ ("C12" \in Props => P_C12(pre, e))
